@@ -6,7 +6,7 @@ import vlib, dlvlib, rrlib, scripts as S
 hx = rrlib.hx
 
 RR_OPS = ["send", "sendbig", "join", "break"]
-ROUTER_OPS = ["joinA", "joinI", "joinE", "peer_says", "recv", "to_first", "to_last", "to_unknown", "depart_first", "rejoin_first"]
+ROUTER_OPS = ["joinA", "joinI", "joinE", "peer_says", "recv", "to_first", "to_last", "to_unknown", "depart_first", "rejoin_first", "rejoin_live"]
 
 
 def rr_script(seq, stype, scen):
@@ -34,7 +34,7 @@ def rr_script(seq, stype, scen):
 
 def router_script(seq, scen):
     ops, n, ns, np = [], 0, 0, 0
-    live, idents, first = [], {}, 1
+    live, idents, first, superseded = [], {}, 1, False
     for o in seq:
         if o in ("joinA", "joinI", "joinE"):
             if n < 4:
@@ -51,6 +51,13 @@ def router_script(seq, scen):
             if n and 1 not in live and n < 5 and idents.get(1):
                 n += 1
                 ops.append({"op": "attach", "c": n, "ptype": "DEALER", "ident": idents[1]}); live.insert(0, n); first = n
+        elif o == "rejoin_live":
+            # the first peer is still connected (idle, perhaps half-open) while a new connection announces its identity: the newcomer supersedes it
+            if n and live and live[0] == first and n < 5 and idents.get(1) and not superseded:
+                n += 1; superseded = True
+                ops.append({"op": "attach", "c": n, "ptype": "DEALER", "ident": idents[1]}); live[0] = n; first = n
+                np += 1
+                ops.append({"op": "psend", "c": n, "m": [hx("c%dsays%d" % (n, np))]})
         elif o == "peer_says":
             if live:
                 np += 1; c = live[np % len(live)]
